@@ -187,6 +187,68 @@ def run(ck):
             ck.violation("L2.entry-expiry-from-reply", "L2|timestampsSet|expires-source", s.where(),
                          "timestampsSet sets StoreEntry::expires from %s, which is not derived from the reply's expires on every path (definitions: %s)" % (E.key(r), src))
 
+    ck.rule("L1b HttpReply::hdrExpirationTime: a present Expires header always yields an explicit expiry: a value read with getTime(EXPIRES) is returned only through "
+            "`e < 0 ? squid_curtime : e` (a malformed Expires such as \"0\" means expired now, not -1 = no explicit expiry, which would hand the decision to the "
+            "last-modified heuristic), and the constant -1 is returned only with has(EXPIRES) established false or on the vary_ignore_expire Date == Expires path")
+    hdefs = ck.local_defs(het)
+    is_exp_time = lambda t: E.strip(t).get("k") == "call" and E.strip(t).get("f") == "HttpHeader::getTime" and E.const(E.strip(t)["a"][0]) == hdr["EXPIRES"]
+    exp_locals = {n for n, ds in hdefs.items() if ds and all(is_exp_time(d) for d in ds)}
+    has_exp = ev_call("HttpHeader::has", arg={0: E.m_const(hdr["EXPIRES"])})
+    m_has_exp = E.M(lambda t: has_exp({"e": "call", "x": t}), "header.has(EXPIRES)")
+    rfl = ck.flow(het)
+    nret = 0
+    for st in rfl.find(ev_return()):
+        x = E.strip(st.ev.get("x"))
+        mentions_exp = isinstance(x, dict) and (any(is_exp_time(n) for n in E.walk(x)) or bool(exp_locals & E.mentions(x)))
+        if mentions_exp:
+            nret += 1
+            good = False
+            if x.get("k") == "cond":
+                c, pol = E.norm(x["c"])
+                c = E.strip(c)
+                neg_branch, other = (x["t"], x["f"]) if pol else (x["f"], x["t"])
+                good = isinstance(c, dict) and c.get("k") == "bin" and c.get("op") == "<" and E.const(c["r"]) == 0 and bool(exp_locals & E.mentions(c["l"])) and \
+                    "squid_curtime" in E.mentions(neg_branch) and bool(exp_locals & E.mentions(other))
+            if good:
+                ck.ok("L1b.malformed-expires-is-expired", st.where(), "hdrExpirationTime: Expires is returned as e < 0 ? squid_curtime : e")
+            else:
+                ck.violation("L1b.malformed-expires-is-expired", "L1b|hdrExpirationTime|raw-expires", st.where(), "hdrExpirationTime returns %s: an unparsable Expires value (getTime() == -1) "
+                             "becomes 'no explicit expiry' instead of 'expired now', and the heuristic lifetime serves the entry without contacting the origin" % E.key(x)[:80], rfl.witness(st))
+        elif E.const(x) == -1:
+            nret += 1
+            if st.has(m_has_exp, False) or any(fc[0] == "A" and fc[2] is True and E.strip(rfl.trees[fc[1]]).get("k") == "bin" and E.strip(rfl.trees[fc[1]]).get("op") == "==" and
+                                                bool(exp_locals & E.mentions(rfl.trees[fc[1]])) for fc in st.facts):
+                ck.ok("L1b.malformed-expires-is-expired", st.where(), "hdrExpirationTime: -1 only without an Expires header (or Date == Expires under vary_ignore_expire)")
+            else:
+                ck.violation("L1b.malformed-expires-is-expired", "L1b|hdrExpirationTime|minus-one-with-expires", st.where(), "hdrExpirationTime can return -1 (no explicit expiry) "
+                             "although header.has(EXPIRES) was not established false on the path", rfl.witness(st))
+    ck.need(nret >= 2, "C12: hdrExpirationTime no longer has an Expires return and a `return -1`")
+
+    ck.rule("L2b label consistency in StoreEntry::timestampsSet: the explicit lifetime (reply->expires - reply->date) is added to the same corrected reception date that "
+            "becomes StoreEntry::timestamp (served_date: Date clamped to now, corrected by Age and the peer response time); anchoring it at squid_curtime "
+            "instead lengthens the lifetime by the Date skew while timestamp stays correct")
+    stamp = [E.strip(ev.get("rhs")) for bb in ts.blocks.values() for ev in bb["ev"] if ev_assign("StoreEntry::timestamp")(ev)]
+    ck.need(len(stamp) == 1 and stamp[0].get("k") == "ref" and stamp[0].get("dk") == "local", "C12: timestampsSet no longer sets timestamp from one local")
+    BASE = stamp[0]["d"]
+    nsum = 0
+    for bb in ts.blocks.values():
+        for ev in bb["ev"]:
+            r = E.strip(ev.get("rhs") if ev.get("e") == "asg" else ev.get("init")) if ev.get("e") in ("asg", "decl") else None
+            if not (isinstance(r, dict) and r.get("k") == "bin" and r.get("op") == "+"):
+                continue
+            parts = [E.strip(r["l"]), E.strip(r["r"])]
+            life = [p_ for p_ in parts if p_.get("k") == "bin" and p_.get("op") == "-" and "HttpReply::expires" in E.mentions(p_) and "HttpReply::date" in E.mentions(p_)]
+            if len(life) != 1:
+                continue
+            nsum += 1
+            base = [p_ for p_ in parts if p_ is not life[0]][0]
+            if base.get("k") == "ref" and base.get("d") == BASE:
+                ck.ok("L2b.lifetime-anchored-at-timestamp", ts.where(ev["l"]), "timestampsSet: expiry = %s + (expires - date), and timestamp = %s" % (BASE, BASE))
+            else:
+                ck.violation("L2b.lifetime-anchored-at-timestamp", "L2b|timestampsSet|lifetime-base|%s" % E.key(base)[:40], ts.where(ev["l"]), "timestampsSet adds the explicit lifetime "
+                             "to %s while the entry's timestamp is %s: the two disagree by the Date/Age correction" % (E.key(base)[:60], BASE))
+    ck.need(nsum >= 1, "C12: timestampsSet no longer computes <base> + (reply->expires - reply->date)")
+
     # ------------------------------------------------------------------ H: the hit path
     ck.rule("H1 clientReplyContext::cacheHit: sendMoreData() only if refreshCheckHTTP() was false (or flags.internal, didCollapse, or a negative hit); "
             "RESPONSE(refreshCheckHTTP() true -> processExpired() or processMiss())")
